@@ -15,6 +15,13 @@ E3  ... and the recorded trace (action, thread, returned values, head/tail/live 
     against the spec (SpscTrace.tla), all invariants on.
 E4  random controlled schedules (uniform and PCT) of random contract-respecting programs over six
     template instantiations (requested capacity 1..4, power-of-two and exact buffer sizes).
+E5  free-running rounds (drv_spsc --stress): a producer, a consumer and sometimes an observer thread run
+    random programs on the real ring truly concurrently - no controller, the hooks are inert, so the
+    windows INSIDE a specification step (two loads of one index, a re-read after the bounds check) are
+    exercised, which E2-E4 cannot do.  One observation record per round (per-thread results in program
+    order; every 8th round is a long "stream" whose results are tallied); TLC validates every record
+    against spec/spsc/SpscObs.tla: exactly-once FIFO, decisions consistent with a monotone view of the
+    peer's index, observers in range, quiescent accounting, payload lifetimes, no hang.
 """
 import os
 
@@ -72,7 +79,26 @@ def run(ctx):
                 out.write(f.read())
     ctx.validate(SPEC, 'SpscTrace.tla', 'SpscTrace.cfg', alltr, WHAT, executions=execs,
                  label='cover replay + random pct0 + random pct3', timeout=1100)
+    # E5: free-running rounds (real threads, inert hooks): the windows BETWEEN two hook points ---------------
+    chunks = 3 if thorough else 1            # thorough: 15 x the quick number of rounds, one TLC run per chunk
+    rounds = 24000 if thorough else 4800
+    free = 0
+    for k in range(chunks):
+        tr = os.path.join(ctx.work, 'stress%d.ndjson' % k)
+        tot, _ = ctx.driver(exe, ['--out', tr, '--stress', rounds, '--seed', ctx.seed + 1000 * k, '--streamevery', 8,
+                                  '--streamlen', 400], WHAT, label='free-running producer/consumer rounds #%d' % k,
+                            allow_incomplete=True, timeout=300)
+        ctx.validate(SPEC, 'SpscObs.tla', 'SpscObs.cfg', tr, WHAT, executions=tot.get('executions', 0),
+                     label='free-running rounds #%d: FIFO exactly once, consistent decisions, lifetimes' % k,
+                     timeout=900)
+        free += tot.get('executions', 0)
+        if k == 0:
+            ctx.sample_trace(tr, 4)
+    ctx.cov['free_running_rounds'] = free
     ctx.assumptions += [
+        'E5 observes only what the public API returns to each thread in its program order (plus payload lifetime '
+        'tallies and the quiescent state at the end of a round); operations of different threads are not ordered, so '
+        'a race whose effect no caller can see in ~10^5 racing operations is not detected; x86-64 hardware memory model',
         'TLA+ interleaving semantics are sequentially consistent (weak-memory effects are C10)',
         'contract (R1): at most one thread issues producer operations and at most one issues consumer operations',
         'empty()/full() load both indices inside one expression: the model checks both evaluation orders as '
